@@ -14,7 +14,7 @@ ASSUMPTIONS = [
     "removals are not required to be legitimate (the table clause is about returned estimates); cells stay far from the int32 limits",
 ]
 BOUNDS = {
-    "quick": "all sequences of <= 4 operations (HeavyHitters: add; StreamThreshold: add/remove) plus all 5-add sequences for 2 heavy hitters on 1x1 and 2x1, keys canonically named in order of first use; number_heavy_hitters in {1,2}",
+    "quick": "all sequences of <= 4 operations (HeavyHitters: add; StreamThreshold: add/remove) plus all 5-add sequences over up to 4 keys for 2 heavy hitters on 1x1 and 2x1, keys canonically named in order of first use; number_heavy_hitters in {1,2}",
     "thorough": "sequences of 5 operations for StreamThreshold on 1x1 and 2x1; number_heavy_hitters 3 with 5 adds over 4 keys",
     "outside": "longer histories; more than 3 (4) distinct keys; join/frombytes (tables are not stored)",
 }
@@ -99,7 +99,7 @@ def jobs(tier):
             for n in (2, 3, 4, 5):
                 if n == 5 and (Hn != 2 or (w, d) == (2, 2)):
                     continue
-                for seq in itertools.product(range(3), repeat=n):
+                for seq in itertools.product(range(4 if n == 5 else 3), repeat=n):
                     if _canon(seq) and (n >= 4 or len(set(seq)) > Hn):
                         js.append({"h": "c17.heavy", "cfg": {"w": w, "d": d, "H": Hn, "seq": list(seq)}, "opts": {"cost": 2 ** n, "witnesses": 1}})
         for n in (1, 2, 3, 4):
